@@ -23,11 +23,16 @@ func prepare(c *Case) {
 	c.FullText, _ = render(c.Tree, Full, nil)
 	if c.XSeed != 0 {
 		c.ExtraText, _ = render(c.Tree, Extra, rand.New(rand.NewSource(c.XSeed)))
+	} else if c.Leafy {
+		c.ExtraText, _ = render(c.Tree, Leafy, nil)
+		if c.ExtraText == c.MinText { // no literal operand: nothing to add
+			c.ExtraText = ""
+		}
 	}
 }
 
 func halves(c *Case) []byte {
-	if c.XSeed != 0 {
+	if c.XSeed != 0 || (c.Leafy && c.ExtraText != "") {
 		return []byte{'M', 'F', 'X'}
 	}
 	return []byte{'M', 'F'}
